@@ -382,9 +382,18 @@ func exec(op string) (string, string) {
 		if thr >= 0 && nvalid > thr {
 			tag += "+extra"
 		}
+		snap := snapshotShares(shares)
 		sig, err := bls.RecoverSignature(shares, thr)
+		flags := ""
+		if snapshotShares(shares) != snap {
+			flags += " MUTATED-INPUT"
+		}
+		sig2, err2 := bls.RecoverSignature(shares, thr)
+		if (err == nil) != (err2 == nil) || (err == nil && hex.EncodeToString(sig.Marshal()) != hex.EncodeToString(sig2.Marshal())) {
+			flags += " NONDET"
+		}
 		if err != nil {
-			return errClass(err), tag + "+err"
+			return errClass(err) + flags, tag + "+err"
 		}
 		sigHex := hex.EncodeToString(sig.Marshal()) // (also initialises a zero-value result)
 		pk := new(bn256.G2).ScalarBaseMult(coefs[0])
@@ -396,7 +405,7 @@ func exec(op string) (string, string) {
 		} else {
 			tag += "+unverified"
 		}
-		return sigHex + " v=" + v, tag
+		return sigHex + " v=" + v + flags, tag
 	case "recpk":
 		if len(f) != 3 {
 			return "bad-op", "bad"
@@ -481,12 +490,18 @@ func exec(op string) (string, string) {
 		default:
 			return "bad-op", "bad"
 		}
-		sh, err := entry.VerifExtractAndValidateShare(
-			group.MemberIndex(sender), shareBytes, pks, new(bn256.G1).ScalarBaseMult(prev))
-		if err != nil {
-			return errClass(err), "share+" + errClass(err)[4:]
+		prevPt := new(bn256.G1).ScalarBaseMult(prev)
+		res, flags := discipline(shareBytes, func(buf []byte) string {
+			sh, err := entry.VerifExtractAndValidateShare(group.MemberIndex(sender), buf, pks, prevPt)
+			if err != nil {
+				return errClass(err)
+			}
+			return "ok " + hex.EncodeToString(sh.Marshal())
+		})
+		if strings.HasPrefix(res, "err:") {
+			return res + flags, "share+" + res[4:]
 		}
-		return "ok " + hex.EncodeToString(sh.Marshal()), "share+accepted"
+		return res + flags, "share+accepted"
 	case "complete":
 		if len(f) != 3 {
 			return "bad-op", "bad"
@@ -533,4 +548,20 @@ func main() {
 			}
 		},
 	})
+}
+
+// snapshotShares renders the share slice (pointers' contents) for the input-unchanged check.
+func snapshotShares(shares []*bls.SignatureShare) string {
+	var b strings.Builder
+	for _, s := range shares {
+		switch {
+		case s == nil:
+			b.WriteString("n;")
+		case s.V == nil:
+			fmt.Fprintf(&b, "%d:x;", s.I)
+		default:
+			fmt.Fprintf(&b, "%d:%x;", s.I, new(bn256.G1).Set(s.V).Marshal())
+		}
+	}
+	return b.String()
 }
